@@ -17,6 +17,9 @@ for ln in open(os.path.join(ROOT, "harmless", "MAP")):
     ln = ln.split()
     if len(ln) >= 2:
         jobs.append(("harmless/" + ln[0], ln[1], os.path.join(ROOT, "harmless", ln[0] + ".diff")))
+ONLY = os.environ.get("REGRESS_ONLY")          # regex on the seed name: run a subset, do not rewrite RESULTS.md
+if ONLY:
+    jobs = [j for j in jobs if re.search(ONLY, j[0])]
 # long (whole-unit) properties first
 jobs.sort(key=lambda j: 0 if j[1] in ("C01", "C02", "C03", "C08", "C09", "C20") else 1)
 q = queue.Queue()
@@ -58,7 +61,7 @@ ths = [threading.Thread(target=worker, args=(k,)) for k in range(N)]
 [t.start() for t in ths]
 [t.join() for t in ths]
 head = subprocess.run(["git", "-C", ROOT, "rev-parse", "--short", "HEAD"], capture_output=True, text=True).stdout.strip()
-with open(os.path.join(ROOT, "seeded", "RESULTS.md"), "w") as f:
+with open(os.path.join(ROOT, "seeded", "RESULTS.md") if not ONLY else "/tmp/regress_subset.md", "w") as f:
     f.write("# Seeded changes and harmless edits against the checks (%s, /verif %s)\n\n" % (time.strftime("%FT%TZ", time.gmtime()), head))
     f.write("Each patch was applied to a scratch clone of /repo and checked with `VERIF_REPO=<clone> bin/check <ID>` (tools/regress_par.py).\n\n")
     f.write("| change | check | exit | verdict line |\n|---|---|---|---|\n")
